@@ -161,6 +161,15 @@ def call_closure(eng, st, clo, args):
     if isinstance(clo, FnItem):
         # tuple-struct / enum-variant constructor or a plain function used as a value
         path = clo.path
+        # std functions with a model (e.g. Vec::new passed to map_or_else)
+        from .engine import Call
+        c = Call()
+        c.fn, c.args, c.argops, c.frame, c.func, c.dest_ty, c.site = path, list(args), [], None, st.frames[-1].func if st.frames else None, '?', 'fn-item'
+        for rx, h in list(eng.user_models) + list(eng.std_models):
+            if rx.search(path):
+                r = h(eng, st, c)
+                if r is not None:
+                    return r
         tgt = eng.prog.resolve_call(path, 'mdk-core')
         if tgt is not None and not isinstance(tgt, tuple) and eng.wants_inline(path, tgt):
             return eng.run_function(st, tgt, list(args))
@@ -1144,6 +1153,8 @@ def collect_into(eng, st, items, ty):
     t = simple_type_name(ty or '?')
     if t in ('Vec', 'VecDeque'):
         return SeqV(list(items), ty)
+    if t in ('HashSet', 'BTreeSet', 'HashMap', 'BTreeMap') and not getattr(eng, 'model_maps', True):
+        return Opaque(st.fresh('collected'), ty)
     if t in ('HashSet', 'BTreeSet'):
         m = MapV([], ty, True)
         for x in items:
@@ -1212,8 +1223,13 @@ def _cont(eng, st, a, cls):
 
 def m_new_container(eng, st, call):
     t = simple_type_name(call.dest_ty or '')
+    if t in ('?', '') or t is None:
+        mm = re.match(r'^(?:[\w:]*::)?(Vec|VecDeque|HashMap|HashSet|BTreeMap|BTreeSet|String)(::<.*>)?::new$', call.fn)
+        t = mm.group(1) if mm else t
     if t in ('Vec', 'VecDeque'):
         return [(st, SeqV([], call.dest_ty))]
+    if t in ('HashMap', 'BTreeMap', 'HashSet', 'BTreeSet') and not getattr(eng, 'model_maps', True):
+        return None          # keyed containers of symbolic keys stay environment values (panic-freedom explorations)
     if t in ('HashMap', 'BTreeMap'):
         return [(st, MapV([], call.dest_ty))]
     if t in ('HashSet', 'BTreeSet'):
@@ -1532,4 +1548,43 @@ STD_MODELS[:0] = [
     (R(r'slice::<impl \[.*\]>::(sort_by|sort_unstable_by)::<'), m_sort_by),
     (R(r' as (std::ops::)?Index<(std::ops::)?Range<usize>>>::index$'), m_index_range),
     (R(r'^<([\w:]*::)?(EventId|Timestamp) as (std::cmp::)?(Ord|PartialOrd)>::(cmp|partial_cmp|lt|le|gt|ge)$'), m_cmp_int),
+]
+
+
+# ---- std functions that can panic on hostile input (used by the panic-freedom obligations) ------------------------------
+
+def m_str_split_at(eng, st, call):
+    """str::split_at / slice::split_at(mid): panics when mid is past the end or (str) not on a char boundary"""
+    from .engine import Panic
+    s = deref_all(eng, st, call.args[0])
+    k = call.args[1]
+    ident = _ident(s)
+    ln = len_of(eng, st, s) if not (isinstance(s, StrV) and s.text is None) else z3.BitVec(f'len({ident})', 64)
+    ok = z3.And(z3.ULE(k, ln), z3.Bool(f'char_boundary({ident},{z3.simplify(k)})'))
+    out = []
+    for s2, good in bool_cases(eng, st, ok):
+        if good:
+            out.append((s2, Agg('tuple', None, None, [Ref(s2.temp(StrV(sym=f'{ident}[..{z3.simplify(k)}]')), ()), Ref(s2.temp(StrV(sym=f'{ident}[{z3.simplify(k)}..]')), ())])))
+        else:
+            out.append((s2, Panic(f'split_at({z3.simplify(k)}) past the end or not on a char boundary in {call.site}')))
+    return out
+
+
+def m_str_index_range(eng, st, call):
+    """<str as Index<Range*<usize>>>::index: panics unless the bounds are in range and on char boundaries"""
+    from .engine import Panic
+    s = deref_all(eng, st, call.args[0])
+    if isinstance(s, SeqV):
+        return None
+    ident = _ident(s)
+    ok = z3.Bool(st.fresh(f'range_ok({ident})'))
+    out = []
+    for s2, good in bool_cases(eng, st, ok):
+        out.append((s2, Ref(s2.temp(StrV(sym=s2.fresh(f'{ident}[range]'))), ()) if good else Panic(f'string slice index out of range or not on a char boundary in {call.site}')))
+    return out
+
+
+STD_MODELS[:0] = [
+    (R(r'str>::split_at$|slice::<impl \[.*\]>::split_at$'), m_str_split_at),
+    (R(r'^<str as (std::ops::)?Index<(std::ops::)?Range(From|To|Inclusive|ToInclusive)?<usize>>>::index$'), m_str_index_range),
 ]
